@@ -282,6 +282,45 @@ pub fn rice_case(rng: &mut Rng, max_samples: usize) -> Case {
     }
 }
 
+/// A smooth, well-predicted block (fixed/LPC wins) with one short loud burst near the Nyquist
+/// frequency: the partition holding the burst wants a Rice parameter far above the rest - and,
+/// for narrow widths with a fixed predictor of order k, above the sample width itself.
+pub fn burst_case(rng: &mut Rng) -> Case {
+    let bps = *rng.pick(&[8usize, 8, 12, 12, 16, 20]);
+    let block = *rng.pick(&[256usize, 512, 1024, 4096, 4096, 1152]);
+    let len = block + if rng.chance(1, 4) { rng.usize_below(block) } else { 0 };
+    let full = gen::smax(bps) as f64;
+    let amp = full * (0.2 + 0.6 * rng.f64());
+    let period = 40.0 + 400.0 * rng.f64();
+    let noise = full * 0.004 * rng.f64();
+    let mut samples = vec![0i32; len];
+    for (t, x) in samples.iter_mut().enumerate() {
+        *x = (amp * (6.283 * t as f64 / period).sin() + noise * rng.gauss()).round().clamp(gen::smin(bps) as f64, full) as i32;
+    }
+    for _ in 0..1 + rng.usize_below(2) {
+        let blen = *rng.pick(&[16usize, 32, 64, 64, 128]);
+        let start = rng.usize_below(len.saturating_sub(blen).max(1));
+        let kind = rng.usize_below(3);
+        for t in start..(start + blen).min(len) {
+            samples[t] = match kind {
+                0 => if t % 2 == 0 { gen::smax(bps) } else { gen::smin(bps) },
+                1 => if (t / 2) % 2 == 0 { gen::smax(bps) } else { gen::smin(bps) },
+                _ => rng.range(gen::smin(bps) as i64, gen::smax(bps) as i64) as i32,
+            };
+        }
+    }
+    let mut cfg = gen::gen_config(rng, &ConfigOpts { multithread: Some(false), min_max_parameter: 0 });
+    cfg.subframe_coding.prc.max_parameter = 14;
+    cfg.subframe_coding.use_fixed = true;
+    cfg.subframe_coding.fixed.max_order = 4;
+    cfg.subframe_coding.use_lpc = rng.chance(1, 3);
+    if rng.chance(2, 3) {
+        cfg.subframe_coding.fixed.order_sel = config::OrderSel::BitCount;
+    }
+    cfg.block_size = block;
+    Case { audio: Arc::new(Audio { channels: 1, bps, rate: 44100, samples, recipe: "sine+nyquist_burst".into() }), cfg, block, mode: FillMode::Int, hint: true }
+}
+
 pub fn par_case(rng: &mut Rng, max_samples: usize) -> Case {
     let mut c = gen_case(rng, &Limits { max_samples, max_blocks: 12, max_block_size: 512, ..Limits::default() });
     c.cfg.multithread = true;
@@ -768,6 +807,7 @@ pub fn run_c13(ctx: &Ctx) -> i32 {
         Sub { name: "loud", n: n(500, 25_000), gen: Box::new(|r| loud_case(r, 9000)) },
         Sub { name: "mix", n: n(500, 30_000), gen: Box::new(|r| gen_case(r, &lim(20_000))) },
         Sub { name: "lpc64", n: n(100, 5_000), gen: Box::new(|r| lpc64_case(r, 9000)) },
+        Sub { name: "burst", n: n(400, 20_000), gen: Box::new(burst_case) },
     ];
     // evaluations are counted per residual inside the oracle
     sched::install();
